@@ -665,7 +665,91 @@ func runC08(c *Ctx) error {
 			}
 		}
 	}
+	if err := c08ConcurrentAnnouncements(c); err != nil {
+		return err
+	}
 	return c08DeepChains(c)
+}
+
+// c08ConcurrentAnnouncements: a router handles announcements on several workers at once.  Worker 1
+// gets origin O1's announcement from the delivering peer P, whose (valid) outer record wraps a record
+// that relay H signed for ANOTHER announcement (origin O2's); it is held where it stores the not yet
+// known H (no router lock is held there).  Meanwhile worker 2 handles the genuine O2 announcement
+// (P's record around that very record of H) to completion.  Then worker 1 goes on.  H never signed
+// for O1's announcement: it is rejected, the table gets no route to O1, nothing of it is forwarded.
+func c08ConcurrentAnnouncements(c *Ctx) error {
+	for rep, n := 0, c.Pick(3, 10); rep < n; rep++ {
+		e, err := newCtlEnv(c, false)
+		if err != nil {
+			return err
+		}
+		R, P := e.R, e.P1
+		var fresh []*m.Address
+		for i := 0; i < 3; i++ {
+			a, err := newIdentity()
+			if err != nil {
+				return err
+			}
+			fresh = append(fresh, a)
+		}
+		H, O1, O2 := fresh[0], fresh[1], fresh[2]
+		exp := time.Now().Add(time.Hour)
+		a1, err := c08NewAnn(O1, false, 7, exp)
+		if err != nil {
+			return err
+		}
+		a2, err := c08NewAnn(O2, false, 9, exp)
+		if err != nil {
+			return err
+		}
+		mk := func(id *m.Address, ctx []byte) c08Rec {
+			return c08Rec{pub: id.PublicAddress, delay: uint16(1 + c.Rng.IntN(40)), fl: m.SwitchLabel(2 + c.Rng.IntN(100)), rl: m.SwitchLabel(2 + c.Rng.IntN(100)), signKey: id.PrivateKey, ctx: ctx, flipAt: -1}
+		}
+		hForO2 := mk(H, a2.ctx)
+		genuine := append(append([]byte(nil), a2.base...), c08Encode([]c08Rec{mk(P.id, a2.ctx), hForO2})...)
+		// the forged one: P signs (for O1) around H's record for O2, byte for byte
+		inner := c08Encode([]c08Rec{hForO2})
+		forged := append(append([]byte(nil), a1.base...), c08Encode([]c08Rec{mk(P.id, a1.ctx), {raw: inner}})...)
+		held, release := R.rs.holdSave(H.IP)
+		before := coqEntries(R.ro.Table().VerifEntries())
+		_ = before
+		done1 := make(chan deliverResult, 1)
+		go func() { done1 <- R.inject(forged, R.links[P.id.IP]) }()
+		interleaved := false
+		select {
+		case <-held:
+			interleaved = true
+		case <-time.After(time.Second):
+		}
+		res2 := R.inject(genuine, R.links[P.id.IP])
+		release()
+		res1 := <-done1
+		c.Eval()
+		forwardedO1 := 0
+		for _, q := range e.w.queue {
+			if fi := parseFrameInfo(q.data); fi.ok && fi.src == O1.IP {
+				forwardedO1++
+			}
+		}
+		e.w.queue = nil
+		routeO1 := false
+		for _, en := range R.ro.Table().VerifEntries() {
+			if en.DstIP == O1.IP {
+				routeO1 = true
+			}
+		}
+		c.Count(fmt.Sprintf("concurrent-announcements:interleaved=%v", interleaved))
+		c.NonTrivial(fmt.Sprintf("concurrent/%v", interleaved))
+		if res1.panicked() || res2.panicked() {
+			c.Violate("two announcements handled at the same time crashed a router worker", "concurrent-panic", map[string]any{"interleaved": interleaved})
+			continue
+		}
+		if routeO1 || forwardedO1 > 0 {
+			c.Violate("an announcement carrying a hop record its signer produced for a different announcement was accepted while that other announcement was handled by a second worker", "concurrent-foreign-record",
+				map[string]any{"interleaved": interleaved, "route_installed": routeO1, "forwarded": forwardedO1})
+		}
+	}
+	return nil
 }
 
 // c08DeepChains: chains of 97..101 hop records (the receive path has no size limit below the largest
